@@ -32,10 +32,11 @@ func isSetupFunc(fn string) bool {
 		// merging and graph building happen while loading
 		"taskfile/ast:Taskfile.Merge", "taskfile/ast:Tasks.Merge", "taskfile/ast:TaskfileGraph.Merge", "taskfile/ast:NewTaskfileGraph",
 		"taskfile/ast:Tasks.ResolveRootRefs", // called by TaskfileGraph.Merge only (after F32), on the merged root table
+		"taskfile/ast:Tasks.setDefaults",     // called by Taskfile.Merge only (fixes L8-4/5), on the included file's table while loading
 		"taskfile/ast:Include.DeepCopy", "taskfile/ast:Includes.Set", "taskfile/ast:NewIncludes",
 		// option constructors of the fingerprint package write a fresh config
-		"taskfile/ast:Platform.parseArch", "taskfile/ast:Platform.parseOsOrArch", "taskfile/ast:Platform.parsePlatform", // YAML decoding
-		"internal/logger:Logger.Prompt":
+		"taskfile/ast:Platform.parseArch", "taskfile/ast:Platform.parseOsOrArch", // YAML decoding
+		"taskfile/ast:Platform.parsePlatform":
 		return true
 	}
 	return false
@@ -76,4 +77,14 @@ func isConfinedBase(fn, base string) bool {
 		return true // the compiled copy under construction
 	}
 	return false
+}
+
+// Reviewed call edges from the run phase into functions classified set-up-only: (caller, callee).  An edge listed
+// here is not followed when the run-phase reachable set is computed, so its callee keeps its set-up classification.
+// Each needs a reason, written beside the same pair in lean/Props/C18.lean (`reviewedSetupEdges`), where the
+// generated edge list is pinned to be exactly this list.
+var reviewedSetupEdges = [][2]string{
+	{"internal/hash:Hash", "taskfile/ast:Task.UnmarshalYAML"}, // the task is handed to hashstructure as `any`: reflection over fields, no decoding
+	{"task:Executor.Run", "task:Executor.ListTasks"},          // printed when a requested task does not exist, before any task is started
+	{"task:Executor.Run", "task:Executor.watchTasks"},         // watch mode, after g.Wait(): outside every model
 }
